@@ -1,10 +1,234 @@
-"""Controls: miniature good/bad programs for each rule template, run through
-the same extractor and the same query code on every invocation. Filled in
-below by `run_or_die`; a failure means the checker itself is broken (exit 2,
-never a VIOLATION)."""
+"""Controls: miniature good/bad programs (crate /verif/controls), compiled
+through the same `factgen` driver and queried with the same engine primitives
+the property rules use, on every invocation of ./check. Each primitive must
+accept the good twin and reject the bad twin. A failure means the checker
+itself (extractor, CFG, dominators, slicing, labels, dead-edge pruning, byte
+tables) is broken: exit 2, never a VIOLATION.
+
+The control facts are cached under .cache/controls-<hash(controls source,
+factgen binary, avlint engine sources)>; extraction takes ~1 s."""
+import hashlib
+import os
+import shutil
+import subprocess
+import sys
+import tempfile
+
 LAST = None
+VERIF = os.path.dirname(os.path.dirname(os.path.abspath(__file__)))
+CACHE = os.path.join(VERIF, ".cache")
+FACTGEN = os.path.join(VERIF, "factgen", "target", "release", "factgen")
+SRC = os.path.join(VERIF, "controls")
+
+
+def _hash():
+    h = hashlib.sha256()
+    for f in (os.path.join(SRC, "src", "lib.rs"), os.path.join(SRC, "Cargo.toml"), FACTGEN):
+        with open(f, "rb") as fh:
+            h.update(hashlib.sha256(fh.read()).digest())
+    return h.hexdigest()[:16]
+
+
+def _facts():
+    os.makedirs(CACHE, exist_ok=True)
+    dest = os.path.join(CACHE, "controls-" + _hash())
+    if os.path.isdir(dest) and os.listdir(dest):
+        return dest
+    sysroot = subprocess.check_output(["rustc", "+nightly", "--print", "sysroot"], text=True).strip()
+    tgt = tempfile.mkdtemp(prefix="avlint-ctl-target-")
+    out = tempfile.mkdtemp(prefix="avlint-ctl-facts-")
+    env = dict(os.environ)
+    env.update(
+        LD_LIBRARY_PATH=os.path.join(sysroot, "lib"),
+        RUSTFLAGS="-Zmir-opt-level=0 -Awarnings",
+        RUSTC_WORKSPACE_WRAPPER=FACTGEN,
+        FACTGEN_OUT=out,
+        CARGO_TARGET_DIR=tgt,
+        CARGO_NET_OFFLINE="true",
+    )
+    env.pop("RUSTC_WRAPPER", None)
+    env.pop("FACTGEN_ONLY", None)
+    try:
+        p = subprocess.run(["cargo", "+nightly", "check", "--offline", "--lib"], cwd=SRC, env=env, stdout=subprocess.PIPE, stderr=subprocess.STDOUT, text=True)
+        if p.returncode != 0 or not os.listdir(out):
+            print("controls: extraction failed\n" + p.stdout[-2000:], file=sys.stderr)
+            sys.exit(2)
+        tmp = dest + ".tmp%d" % os.getpid()
+        shutil.rmtree(tmp, ignore_errors=True)
+        shutil.copytree(out, tmp)
+        try:
+            os.rename(tmp, dest)
+        except OSError:
+            shutil.rmtree(tmp, ignore_errors=True)  # another process won the race
+        for d in os.listdir(CACHE):
+            if d.startswith("controls-") and os.path.join(CACHE, d) != dest and ".tmp" not in d:
+                shutil.rmtree(os.path.join(CACHE, d), ignore_errors=True)
+        return dest
+    finally:
+        shutil.rmtree(tgt, ignore_errors=True)
+        shutil.rmtree(out, ignore_errors=True)
+
+
+def _controls(p):
+    """yield (name, template, good_verdict, bad_verdict): good must be True, bad must be False"""
+    from .core import e_has_field, e_calls, is_call, short, walk
+    from . import rules as R
+    from . import bytetab
+
+    def calls(b, pat):
+        return [bb for bb, t in b.calls(pat)]
+
+    # T2 must-pass-through -------------------------------------------------
+    def wake_after_write(name):
+        b = p.one(r"Chan::%s$" % name)
+        w = calls(b, r"extend_from_slice")
+        assert len(w) == 1
+        ok, wit = b.must_pass_after(w[0], b.returns(), calls(b, r"Chan::wake$"))
+        return ok
+
+    yield ("must-pass-after", "T2", wake_after_write("feed_good"), wake_after_write("feed_bad"))
+
+    # T1 guarded site (set of edges; short-circuit) --------------------------
+    limit = R.cmp_pred("Le", lambda e: e_has_field(e, r"\.len$"), lambda e: e_has_field(e, r"\.limit$"), True)
+
+    def append_guarded(name):
+        b = p.one(r"Chan::%s$" % name)
+        s = calls(b, r"extend_from_slice")
+        assert len(s) == 1
+        return R.guarded_by(b, s[0], limit)[0]
+
+    yield ("guarded-site", "T1", append_guarded("acc_good"), append_guarded("acc_bad"))
+    yield ("guarded-site-short-circuit-or", "T1", append_guarded("acc_or_good"), append_guarded("acc_bad"))
+
+    # correlated tests (dead edges) ------------------------------------------
+    def pending_needs_not_eof(name):
+        b = p.one(r"Chan::%s$" % name)
+        pend = [x[0] for x in R.agg_sites(b, r"Poll::Pending$")]
+        assert pend, "no Pending aggregate"
+        not_eof = lambda c, lab: isinstance(lab, bool) and R.strip_not(c, lab)[1] is False and e_has_field(R.strip_not(c, lab)[0], r"\.eof$")
+        return all(R.guarded_by(b, s, not_eof)[0] for s in pend)
+
+    yield ("correlated-tests", "T1+dead-edges", pending_needs_not_eof("read_len_good"), pending_needs_not_eof("read_len_bad"))
+
+    # assumption-conditioned reachability with matches! threading --------------
+    def no_dispatch_when_closing(name):
+        b = p.one(r"Chan::%s$" % name)
+
+        def not_closing(c, lab):  # edges impossible when state == Closing
+            if c[0] == "discr" and e_has_field(c, r"\.state$"):
+                return not R.label_may_be(lab, "Closing")
+            return False
+
+        r, _ = R.reach_under(b, [not_closing])
+        return not (set(calls(b, r"Chan::dispatch$")) & r)
+
+    yield ("reach-under-assumption", "T3", no_dispatch_when_closing("poll_good"), no_dispatch_when_closing("poll_bad"))
+
+    # &mut-borrowed scalars stay opaque (bad twin = what constant folding would claim)
+    def sees_through(name):
+        b = p.one(r"Chan::%s$" % name)
+        site = calls(b, r"Chan::dispatch$")[0]
+        g = b.guards(site)
+        assert g, "guard of the dispatch site lost"
+        return any(e[0] == "bin" and e[2][0] == "const" and e[3][0] == "const" for e, lab, a in g)
+
+    # the slicer may inline `let n = 0` (foldable) but never a scalar that was lent out by &mut (opaque)
+    yield ("mut-borrowed-opaque", "slicer", sees_through("foldable") and not sees_through("opaque"), sees_through("opaque"))
+
+    # T4/T9 reset completeness ---------------------------------------------------
+    adt = [a for n, a in p.adts.items() if n.endswith("::Chan")]
+    assert adt, "ADT table lost Chan"
+    fields = [f["n"] for f in _adt_fields(adt[0])]
+
+    def resets_all(name):
+        b = p.one(r"Chan::%s$" % name)
+        touched = set()
+        for bb, i, s in b.assigns():
+            for x in s["p"][1:]:
+                if isinstance(x, str) and x.startswith("."):
+                    touched.add(x.split(".")[-1])
+        for bb, t in b.calls(None):
+            e0 = b.op_expr(t["args"][0], 4) if t.get("args") else None
+            lf = R.last_field(e0) if e0 is not None else None
+            if lf:
+                touched.add(lf.split(".")[-1])
+        return all(f in touched for f in fields), touched
+
+    g, tg = resets_all("reset_good")
+    bd, tb = resets_all("reset_bad")
+    yield ("reset-completeness", "T4", g, bd)
+
+    # T4 field effect set ------------------------------------------------------
+    eff = R.writes_of_field(p, r"\.eof$")
+    writers = sorted({b_.npath for b_, bb, s, v in eff})
+    yield ("field-effect-set", "T4", any("reset_good" in w for w in writers) and not any("outsider_good" in w for w in writers), not any("outsider_bad" in w for w in writers))
+
+    # T7 byte value-set ----------------------------------------------------------
+    def table_ok(name):
+        b = p.one(r"avcontrols::%s$" % name)
+        tab, info = bytetab.byte_table(b, byte_expr=b.local_expr(1), start=0)
+        assert tab and len({tab[x] for x in range(256)}) == 4, "byte table lost its four classes"
+        return tab[13] != tab[10] and tab[10] == tab[0] and tab[ord("a")] == tab[ord("7")] and tab[ord("g")] == tab[0]
+
+    yield ("byte-table", "T7", table_ok("step_good"), table_ok("step_bad"))
+
+    # fixed-offset slice needs a dominating length test ----------------------------
+    def len_ge2(name):
+        b = p.one(r"Chan::%s$" % name)
+        ge2 = lambda c, lab: bool(
+            isinstance(lab, bool)
+            and (lambda n: n and n[0] == "Lt" and n[3] is False and n[2][0] == "const" and n[2][2] >= 2 and e_calls(n[1], r"slice.*::len$|len$"))(R.norm_cmp(c, lab))
+        )
+        sites = [bb for bb in b.live if (b.term(bb) or {}).get("k") == "assert"] + calls(b, r"split_at$")
+        assert sites, "no indexing site"
+        return all(R.guarded_by(b, s, ge2)[0] for s in sites)
+
+    yield ("slice-length-guard", "T1", len_ge2("code_good"), len_ge2("code_bad"))
+
+    # T8 overflow assert guarded -----------------------------------------------------
+    def sub_guarded(name):
+        b = p.one(r"Chan::%s$" % name)
+        subs = [bb for bb in b.live if (b.term(bb) or {}).get("k") == "assert" and "Sub" in str(b.term(bb).get("msg", b.term(bb)))]
+        assert subs, "Assert(Overflow(Sub)) not found"
+        pos = lambda c, lab: bool(isinstance(lab, bool) and (lambda n: n and n[0] == "Le" and n[3] is False and n[2][0] == "const" and n[2][2] == 0)(R.norm_cmp(c, lab)))
+        return all(R.guarded_by(b, s, pos)[0] for s in subs)
+
+    yield ("overflow-assert-guarded", "T8", sub_guarded("range_good"), sub_guarded("range_bad"))
+
+
+def _adt_fields(a):
+    if isinstance(a, dict):
+        if "fields" in a:
+            return a["fields"]
+        vs = a.get("variants") or []
+        if vs:
+            return vs[0].get("fields", [])
+    return []
 
 
 def run_or_die():
     global LAST
-    LAST = {"status": "not-built-yet"}
+    from .core import Prog
+
+    try:
+        p = Prog(_facts())
+        res = []
+        bad = []
+        for name, tmpl, good, badv in _controls(p):
+            ok = bool(good) and not bool(badv)
+            res.append({"control": name, "template": tmpl, "good_accepted": bool(good), "bad_rejected": not bool(badv)})
+            if not ok:
+                bad.append(name)
+    except SystemExit:
+        raise
+    except BaseException as e:
+        import traceback
+
+        traceback.print_exc()
+        print("controls: checker broken (%s) — exit 2, no verdict" % e, file=sys.stderr)
+        sys.exit(2)
+    if bad:
+        print("controls failed: %s — the checker itself is broken (exit 2, no verdict)" % ", ".join(bad), file=sys.stderr)
+        sys.exit(2)
+    LAST = {"status": "passed", "count": len(res), "controls": res}
+    return LAST
